@@ -136,6 +136,16 @@ Proof.
   - intros a Ha. apply in_map_iff in Ha as [y [<- _]]. reflexivity.
 Qed.
 
+Lemma atoms_read_plain ns l s : atoms_plain l = true -> atoms_read ns l s -> atoms_text l = Some s.
+Proof.
+  intros Hp H. destruct l as [|[s0|q] [|b r]]; try exact H. cbn in Hp. discriminate Hp.
+Qed.
+
+Lemma atoms_plain_read ns l s : atoms_plain l = true -> atoms_text l = Some s -> atoms_read ns l s.
+Proof.
+  intros Hp H. destruct l as [|[s0|q] [|b r]]; try exact H. cbn in Hp. discriminate Hp.
+Qed.
+
 (* ---------------------------------------------------------------- leaves *)
 Section Leaves.
   Variable c : conv.
@@ -163,7 +173,7 @@ Section Leaves.
     deser c [t] fmt ns (leaf_text fmt p) = ROk (VP p).
   Proof.
     intros H. destruct (leaf_ok_inv t fmt p H) as [Hok [Ht Hs]].
-    unfold deser. rewrite <- Ht. rewrite (conv_law fmt ns p _ Hok Hs). reflexivity.
+    unfold deser. rewrite <- Ht. rewrite (proj1 conv_law fmt ns p _ Hok Hs). reflexivity.
   Qed.
 
   Lemma token_ok_inv t fmt y : token_ok t fmt y = true ->
@@ -222,7 +232,7 @@ Section Texts.
     /\ atoms_text (e_atoms fmt y) = Some (y_text fmt y).
   Proof.
     intros [p Hp|tf l Hl].
-    - unfold RoundtripGen.e_data. cbn [RoundtripGen.e_atoms y_text]. split; [|reflexivity].
+    - unfold RoundtripGen.e_data. rewrite (e_atoms_plain_leaf c u ok t fmt p Hp). cbn [y_text]. split; [|reflexivity].
       destruct (leaf_text fmt p); reflexivity.
     - unfold RoundtripGen.e_data. cbn [RoundtripGen.e_atoms y_text]. split; [|apply atoms_text_map].
       destruct l as [|y1 l']; [reflexivity|].
@@ -231,6 +241,13 @@ Section Texts.
       apply andb_true_iff in H1 as [H1 _]. apply andb_true_iff in H1 as [_ H1].
       cbn [map RoundtripGen.x_text]. destruct (leaf_text fmt p) as [|ch s] eqn:E; [discriminate|].
       destruct l' as [|y2 l'']; reflexivity.
+  Qed.
+
+  Lemma e_atoms_vshape_plain t fmt y : vshape t fmt y -> atoms_plain (e_atoms fmt y) = true.
+  Proof.
+    intros [p Hp|tf l Hl].
+    - rewrite (e_atoms_plain_leaf c u ok t fmt p Hp). reflexivity.
+    - cbn [RoundtripGen.e_atoms]. unfold atoms_plain. apply forallb_forall. intros a Ha. apply in_map_iff in Ha as [z [<- _]]. reflexivity.
   Qed.
 End Texts.
 
@@ -368,11 +385,11 @@ Section Main.
            prun (mk_pstate (NElement (mk_enode m attrs ns (length objs) false None None [] []) :: Q) objs W) (inner ++ rest)
            = prun (mk_pstate Q (objs ++ [(Some (elem_name qn cl), o)]) W) rest.
 
-  Lemma reads_content_elems ekids text kes :
+  Lemma reads_content_elems ns ekids text kes :
     (forall e, In e ekids -> exists q a k, e = EElem q a k) ->
     match ekids with
     | [] => text = None /\ kes = []
-    | [EData atoms] => exists s, atoms_text atoms = Some s /\ s <> [] /\ text = Some s /\ kes = []
+    | [EData atoms] => exists s, atoms_read ns atoms s /\ s <> [] /\ text = Some s /\ kes = []
     | _ =>
         blank_o text = true
         /\ (fix rk (ks : list XmlNs.enode) (kes : list pevent) {struct ks} : Prop :=
@@ -834,9 +851,9 @@ Section Main.
       { intros Hx. apply andb_true_iff in Hx as [_ Hx].
         destruct (v_factory var), (v_tokens_factory var); try exact Hx; exact I. }
       destruct t as [| | | | | | | | | | | | |e|k]; try (apply Hs; exact H).
-      apply andb_true_iff in H as [H H3]. apply andb_true_iff in H as [_ H2].
-      destruct (v_tokens_factory var); [discriminate H2|].
-      destruct (v_factory var); [exact H3|exact I].
+      all: apply andb_true_iff in H as [H H3]; apply andb_true_iff in H as [_ H2];
+        destruct (v_tokens_factory var); [discriminate H2|];
+        destruct (v_factory var); [exact H3|exact I].
     Qed.
 
     Lemma factory_default_call f d tp : factory_default f d = true -> tp = is_tuple f -> default_call d = VList tp [].
@@ -912,12 +929,14 @@ Section Main.
     Proof.
       intros Hv Hok. pose proof Hv as [Hw Hin]. unfold ienode, item_ok in *.
       destruct (v_tokens_factory var) as [tf|] eqn:Etf; [unfold RoundtripGen.e_prim; eauto|].
-      destruct (wf_elem_inv var Hw) as [_ [_ [[k [Hty [Hcl _]]]|[t [Hty [Hst _]]]]]].
+      destruct (wf_elem_inv var Hw) as [_ [_ [[k [Hty [Hcl _]]]|[[t [Hty [Hst _]]]|[Hty _]]]]].
       - destruct (fits_item_class c u ok _ var k y Hty Hok) as [cl' [fs' [-> Hfk]]].
         cbn [RoundtripGen.e_item]. destruct n as [|n']; [discriminate Hfk|].
         destruct (fits_inv c u ok py_isspace n' k _ Hfk) as [fs'' [mk [E [Hmk _]]]]. inversion E; subst.
         cbn [RoundtripGen.eobj]. rewrite Hmk. eauto.
       - destruct (fits_item_simple c u ok _ var t y Hty Hst Hok) as [p [-> _]].
+        cbn [RoundtripGen.e_item]. unfold RoundtripGen.e_prim. eauto.
+      - destruct (fits_item_qname c u ok _ var y Hty Hok) as [q1 [-> _]].
         cbn [RoundtripGen.e_item]. unfold RoundtripGen.e_prim. eauto.
     Qed.
     (* ---------------------------------------------------------------- the child elements, one by one *)
@@ -1024,7 +1043,9 @@ Section Main.
       exists ns, tail. split; [exact Htl|].
       destruct (y_text (v_format var) y) as [|ch s] eqn:Ey.
       - destruct Hk as [-> ->]. exact Ha.
-      - destruct Hk as [s' [Hs' [_ [-> ->]]]]. rewrite Hat in Hs'. inversion Hs' as [Es]. rewrite <- Es in Ha. exact Ha.
+      - destruct Hk as [s' [Hs' [_ [-> ->]]]].
+        apply (atoms_read_plain ns _ s' (e_atoms_vshape_plain c u ok t _ y Hs)) in Hs'.
+        rewrite Hat in Hs'. inversion Hs' as [Es]. rewrite <- Es in Ha. exact Ha.
     Qed.
 
     (* a primitive / token element *)
@@ -1094,6 +1115,42 @@ Section Main.
       apply (Hrun mk Hmk).
     Qed.
 
+    (* a QName valued element: its text resolves through the prefix map of its own start event *)
+    Lemma qname_nontrivial q1 : qname_ok q1 = true -> atoms_trivial [AQName (Bind.split_qname q1)] = false.
+    Proof.
+      unfold qname_ok. destruct (Bind.split_qname q1) as [uo l]. cbn [snd]. intros H.
+      destruct uo; [reflexivity|]. destruct l; [discriminate H|reflexivity].
+    Qed.
+
+    Lemma qprim_item_run var q1 a asg wr wo Q objs W rest :
+      is_elem_var var -> v_clazz var = None -> v_types var = [TQName] -> v_tokens_factory var = None ->
+      ok (PQName q1) = true -> qname_ok q1 = true ->
+      (v_factory var = None -> ~ In (v_index var) asg) -> wrap_agrees var wo ->
+      reads (e_prim var (VP (PQName q1))) a ->
+      prun (mk_pstate (ctx wo ++ NElement (enW asg wr) :: Q) objs W) (a ++ rest)
+      = prun (mk_pstate (ctx wo ++ NElement (enW (asg_after var asg) (wr_after var wo wr)) :: Q)
+                        (objs ++ [(Some (v_qname var), VP (PQName q1))]) W) rest.
+    Proof.
+      intros Hv Hcl Ht Htf Hok Hq Hasg Hag Hr. pose proof Hv as [Hw _].
+      unfold RoundtripGen.e_prim, RoundtripGen.e_data in Hr. cbn [RoundtripGen.e_atoms] in Hr.
+      rewrite (qname_nontrivial q1 Hq) in Hr. cbn [reads] in Hr.
+      destruct Hr as [attrs [ns [text [tail [kes [Ha [Hra [Htl Hk]]]]]]]]. destruct Hra as [_ [Hlen _]].
+      rewrite clark_split in Ha. destruct attrs; [|discriminate Hlen].
+      destruct Hk as [s [Hs [Hne [-> ->]]]]. cbn [atoms_read] in Hs. subst a.
+      cbn [app].
+      rewrite (run_step cfg c u replay root _ _ _ _
+                 (start_child var [] ns asg wr wo Q objs W _ Hv Hasg Hag (build_node_prim var ns (length objs) asg wr Hv Hcl))).
+      destruct (wf_class_inv m Hwc) as [F1 F2 F3 F4 F5 F6 F7 F8 F9 F10 F11 F12 F13].
+      destruct (wf_elem_inv var Hw) as [_ [Hc _]]. destruct (var_common_inv var Hc) as [_ [_ [_ [Hn _]]]].
+      apply run_step. cbn [Parser.step pend st_queue st_objects st_warn].
+      unfold primitive_bind.
+      assert (Hpv : parse_var c (fail_conv_warnings cfg) m var (Some s) ns None None = ROk (VP (PQName q1), [])).
+      { unfold parse_var. cbn [truthy_str]. rewrite Ht, Htf. cbn [parse_value]. unfold deser.
+        rewrite (proj2 conv_law (v_format var) ns q1 s Hok Hs). reflexivity. }
+      rewrite Hpv. cbn [rbind]. rewrite F6.
+      unfold finish_end. cbn [rbind fst snd st_warn]. rewrite app_nil_r. reflexivity.
+    Qed.
+
     Lemma one_item_run var y a asg wr wo Q objs W rest :
       is_elem_var var -> item_ok var y ->
       (v_factory var = None -> ~ In (v_index var) asg) -> wrap_agrees var wo ->
@@ -1103,7 +1160,10 @@ Section Main.
     Proof.
       intros Hv Hok Hasg Hag Hr. pose proof Hv as [Hw Hin].
       unfold item_ok in Hok. unfold ienode in Hr.
-      destruct (wf_elem_inv var Hw) as [_ [_ [[k [Hty [Hcl Htf]]]|[t [Hty [Hst Hcl]]]]]].
+      destruct (wf_elem_inv var Hw) as [_ [_ [[k [Hty [Hcl Htf]]]|[[t [Hty [Hst Hcl]]]|[Hty [Hcl Htf]]]]]].
+      3:{ rewrite Htf in *. destruct (fits_item_qname c u ok _ var y Hty Hok) as [q1 [-> [Hokq Hq]]].
+          cbn [RoundtripGen.e_item] in Hr.
+          apply (qprim_item_run var q1 a asg wr wo Q objs W rest Hv Hcl Hty Htf Hokq Hq Hasg Hag Hr). }
       - rewrite Htf in *. apply (obj_item_run var k y a asg wr wo Q objs W rest Hv Hcl Hty Hok Hasg Hag Hr).
       - destruct (v_tokens_factory var) as [tf|] eqn:Etf.
         + destruct (fits_tokens_inv c u ok py_isspace var tf y t Hty Hok) as [tp [l [-> [Hne [Htk Htp]]]]].
@@ -1210,7 +1270,7 @@ Section Main.
         cbn [reads] in Ha. destruct Ha as [attrs [ns [text [tail [kes [Hp [Hra [Htl Hk]]]]]]]].
         rewrite clark_split in Hp. subst a.
         assert (Hkids : reads_kids (map (ienode var) (occ var x)) kes).
-        { apply (reads_content_elems _ text kes); [|exact Hk].
+        { apply (reads_content_elems ns _ text kes); [|exact Hk].
           intros e He. apply in_map_iff in He as [y [<- Hy]].
           rewrite Forall_forall in Hall. apply (ienode_elem var y Hv (Hall y Hy)). }
         cbn [app]. rewrite <- app_assoc. cbn [app].
@@ -1354,9 +1414,10 @@ Section Main.
         apply andb_true_iff in Hfv as [_ Hfl]. rewrite forallb_forall in Hfl. specialize (Hfl x Hil).
         assert (Ho : occ var x = [x]).
         { unfold occ. rewrite Htf.
-          destruct (wf_elem_inv var Hwe) as [_ [_ [[k [Hty _]]|[t0 [Hty [Hst _]]]]]].
+          destruct (wf_elem_inv var Hwe) as [_ [_ [[k [Hty _]]|[[t0 [Hty [Hst _]]]|[Hty _]]]]].
           - destruct (fits_item_class c u ok _ var k x Hty Hfl) as [cl' [fs' [-> _]]]. reflexivity.
-          - destruct (fits_item_simple c u ok _ var t0 x Hty Hst Hfl) as [p [-> _]]. reflexivity. }
+          - destruct (fits_item_simple c u ok _ var t0 x Hty Hst Hfl) as [p [-> _]]. reflexivity.
+          - destruct (fits_item_qname c u ok _ var x Hty Hfl) as [q1 [-> _]]. reflexivity. }
         rewrite Ho. split; [exact Hv|split].
         + constructor; [|constructor]. unfold item_ok. rewrite Htf. exact Hfl.
         + intros _. cbn. lia.
@@ -1749,11 +1810,11 @@ Section Main.
 
   End Obj.
 
-  Lemma reads_text_content rec tv x t text kes :
+  Lemma reads_text_content ns rec tv x t text kes :
     v_is KText tv = true -> v_wrapper_qname tv = None -> vshape t (v_format tv) x ->
     match e_field rec tv x with
     | [] => text = None /\ kes = []
-    | [EData atoms] => exists s, atoms_text atoms = Some s /\ s <> [] /\ text = Some s /\ kes = []
+    | [EData atoms] => exists s, atoms_read ns atoms s /\ s <> [] /\ text = Some s /\ kes = []
     | _ =>
         blank_o text = true
         /\ (fix rk (ks : list XmlNs.enode) (kes : list pevent) {struct ks} : Prop :=
@@ -1770,7 +1831,9 @@ Section Main.
     rewrite He, Hd in Hk.
     destruct (y_text (v_format tv) x) as [|ch s0].
     - exact Hk.
-    - destruct Hk as [s' [Hs' [_ [-> ->]]]]. rewrite Hat in Hs'. inversion Hs'. split; reflexivity.
+    - destruct Hk as [s' [Hs' [_ [-> ->]]]].
+      apply (atoms_read_plain ns _ s' (e_atoms_vshape_plain c u ok t _ x Hs)) in Hs'.
+      rewrite Hat in Hs'. inversion Hs'. split; reflexivity.
   Qed.
 
   (* ---------------------------------------------------------------- the induction *)
@@ -1811,7 +1874,7 @@ Section Main.
       { destruct (wf_text_inv tv Hwt) as [Hkt _].
         destruct (text_field_shape fs tv Hwt Hft) as [[Ex _]|[t [Ht [Hs _]]]].
         - unfold text_of. rewrite Ex in *. unfold RoundtripGen.e_field in Hk. exact Hk.
-        - rewrite (text_of_eq fs tv t Hs). apply (reads_text_content (eobj n) tv _ t text kes Hkt (wf_text_nowrap tv Hwt) Hs Hk). }
+        - rewrite (text_of_eq fs tv t Hs). apply (reads_text_content ns (eobj n) tv _ t text kes Hkt (wf_text_nowrap tv Hwt) Hs Hk). }
       destruct Htext as [-> ->]. cbn [app].
       apply run_step.
       apply (end_simple cl fs m Hwc Hmc Hnames Hfa attrs ns (length objs) tv [] [] (elem_name qn cl) tail Q objs W Htx Hft eq_refl Hra Htl).
@@ -1819,7 +1882,7 @@ Section Main.
       assert (Hpf : forall vv, In vv (pairs cl fs m) -> In (fst vv) (get_element_vars m) /\ pair_ok m n vv).
       { intros vv Hvv. apply (pair_facts cl fs m Hwc Hmc Hnames n Hfe vv Htx Hvv). }
       assert (Hkids : reads_kids (flat_map (fun vv => e_field (eobj n) (fst vv) (snd vv)) (pairs cl fs m)) kes).
-      { apply (reads_content_elems _ text kes); [|exact Hk].
+      { apply (reads_content_elems ns _ text kes); [|exact Hk].
         intros e He. apply in_flat_map in He as [[var x] [Hvv He]]. cbn [fst snd] in He.
         destruct (Hpf _ Hvv) as [Hvar [Hv [Hio _]]]. cbn [fst snd] in *.
         rewrite (e_field_occ m n var x Hv) in He.
